@@ -491,6 +491,10 @@ impl H {
             // after `drop` nothing else is observable
             return;
         };
+        if QUIET.with(|q| *q.borrow()) {
+            // `h_world <ops> quiet`: only the invocation log, the verdict and the destruction ledger
+            return;
+        }
         for &e in &ids {
             fn cell<C: Comp>(w: &World, e: EntityId) -> String {
                 match w.get::<C>(e) {
@@ -598,9 +602,14 @@ impl H {
     }
 }
 
+thread_local! { static QUIET: std::cell::RefCell<bool> = std::cell::RefCell::new(false); }
+
 fn main() {
     let args: Vec<String> = std::env::args().collect();
     let snap = args.get(2).map(|s| s == "snap").unwrap_or(false);
+    if args.get(2).map(|s| s == "quiet").unwrap_or(false) {
+        QUIET.with(|q| *q.borrow_mut() = true);
+    }
     std::panic::set_hook(Box::new(|info| {
         let msg = if let Some(s) = info.payload().downcast_ref::<&str>() {
             s.to_string()
